@@ -322,6 +322,17 @@ class HeaderPacketReceiver(Elaboratable):
         last_enable = Signal()
         m.d.ss     += last_enable.eq(self.enable)
 
+        # Our link can go down (or be reset) while we're in the middle of sending a link command.
+        # We'll latch these events, so we can act on them as soon as our command is finished.
+        restart_pending   = Signal()
+        usb_reset_pending = Signal()
+        restart_required  = Signal()
+        m.d.comb += restart_required.eq((last_enable & ~self.enable) | self.usb_reset | restart_pending)
+        with m.If(restart_required):
+            m.d.ss += restart_pending.eq(1)
+        with m.If(self.usb_reset):
+            m.d.ss += usb_reset_pending.eq(1)
+
         #
         # Header Packet Buffers
         #
@@ -463,7 +474,7 @@ class HeaderPacketReceiver(Elaboratable):
             # and then move to the state in which we'll send them.
             with m.State("DISPATCH_COMMAND"):
 
-                with m.If(self.enable):
+                with m.If(self.enable & ~restart_required):
                     # NOTE: the order below is important; changing it can easily break things:
                     # - ACKS must come before credits, as we must send an LGOOD before we send our initial credits.
                     # - LBAD must come after ACKs and credit management, as all scheduled ACKs need to be
@@ -496,8 +507,11 @@ class HeaderPacketReceiver(Elaboratable):
 
                 # Once we've become disabled, we'll want to prepare for our next enable.
                 # This means preparing for our advertisement, by:
-                with m.If((last_enable & ~self.enable) | self.usb_reset):
+                with m.If(restart_required):
                     m.d.ss += [
+                        restart_pending       .eq(0),
+                        usb_reset_pending     .eq(0),
+
                         # -Resetting our pending ACKs to 1, so we perform an sequence number advertisement
                         #  when we're next enabled.
                         acks_to_send          .eq(1),
@@ -505,7 +519,7 @@ class HeaderPacketReceiver(Elaboratable):
                         # -Decreasing our next sequence number; so we maintain a continuity of sequence numbers
                         #  without counting the advertising one. This doesn't seem to be be strictly necessary
                         #  per the spec; but seem to make analyzers happier, so we'll go with it.
-                        next_header_to_ack    .eq(next_header_to_ack - 1),
+                        next_header_to_ack    .eq(expected_sequence_number - 1),
 
                         # - Clearing all of our buffers.
                         read_pointer          .eq(0),
@@ -524,7 +538,7 @@ class HeaderPacketReceiver(Elaboratable):
                     ]
 
                     # If this is a USB Reset, also reset our sequences.
-                    with m.If(self.usb_reset):
+                    with m.If(self.usb_reset | usb_reset_pending):
                         m.d.ss += [
                             expected_sequence_number  .eq(0),
                             next_header_to_ack        .eq(-1)
@@ -550,7 +564,7 @@ class HeaderPacketReceiver(Elaboratable):
                     m.d.ss   += next_header_to_ack  .eq(next_header_to_ack + 1)
 
                     # If this was the last ACK we had to send, move back to our dispatch state.
-                    with m.If(acks_to_send == 1):
+                    with m.If((acks_to_send == 1) | restart_required):
                         m.next = "DISPATCH_COMMAND"
 
 
@@ -572,7 +586,7 @@ class HeaderPacketReceiver(Elaboratable):
                     m.d.ss   += next_credit_to_issue  .eq(next_credit_to_issue + 1)
 
                     # If this was the last credit we had to issue, move back to our dispatch state.
-                    with m.If(credits_to_issue == 1):
+                    with m.If((credits_to_issue == 1) | restart_required):
                         m.next = "DISPATCH_COMMAND"
 
 
